@@ -5,7 +5,8 @@
 (*             atomic bulk | sequential (non-atomic) bulk, without and with *)
 (*             continueOnFailure | the two bulk shapes as first write       *)
 (*   outcomes  success | business failure | dry run | injected failure of   *)
-(*             the COMMIT that would have made the write durable            *)
+(*             the COMMIT that would have made the write durable |          *)
+(*             idempotent replay of a write that was already made           *)
 (* For every applicable cell TLC builds the concrete request, evaluates     *)
 (* Bulk!BulkApply on it and prints the events Bulk prescribes: exactly one  *)
 (* per durable write, none for a failed, dry, rolled-back or commit-failed  *)
@@ -27,14 +28,15 @@ MW == [x \in {"k"} |-> "w"]
 
 Kinds == {"create", "revert", "txmeta", "untxmeta", "acmeta", "unacmeta"}
 Shapes == {"single", "init", "atomic", "seq", "seqcof", "atomic_init", "seq_init"}
-Outcomes == {"ok", "fail", "dry", "commitfail"}
+Outcomes == {"ok", "fail", "dry", "commitfail", "replay"}
 
 IsInit(s) == s \in {"init", "atomic_init", "seq_init"}
 IsBulk(s) == s \notin {"single", "init"}
 
 History == << [Base EXCEPT !.ps = <<P(World, "a", "USD", 5, 0)>>, !.meta = MK, !.ik = "p1", !.ikin = 1, !.now = 1],
               [Base EXCEPT !.ps = <<P(World, "b", "USD", 1, 0)>>, !.now = 2] >>
-PrefixOf(s) == IF IsInit(s) THEN <<>> ELSE History
+\* for a replay cell the history ends with the very write that the cell sends again (same key, same input)
+Keyed(op) == [op EXCEPT !.ik = "q1", !.ikin = 5]
 
 \* the operation of a cell: one that succeeds, one that fails for a business reason
 OpOK(k, s) ==
@@ -52,7 +54,12 @@ OpFail(k, s) ==
     [] k = "acmeta"   -> [Base EXCEPT !.k = "acmeta", !.addr = "a", !.meta = MK, !.ik = "p1", !.ikin = 7]  \* idempotency key reused
     [] k = "unacmeta" -> [Base EXCEPT !.k = "unacmeta", !.addr = "a", !.key = "k", !.ik = "p1", !.ikin = 8]
 
+PrefixOf(k, s, o) == IF IsInit(s) THEN <<>>
+                     ELSE IF o = "replay" THEN Append(History, [Keyed(OpOK(k, s)) EXCEPT !.now = 2])
+                     ELSE History
+
 Applicable(k, s, o) ==
+  /\ (o = "replay" => ~IsInit(s))                                                \* nothing to replay on a fresh ledger
   /\ (o = "dry" => ~IsBulk(s))                                                   \* a bulk has no dry run
   /\ (IsInit(s) /\ k \in {"revert", "txmeta", "untxmeta"} => o = "fail")         \* nothing to refer to yet
   /\ (IsInit(s) /\ k \in {"acmeta", "unacmeta"} => o # "fail")                   \* no idempotency key to clash with
@@ -62,7 +69,8 @@ Filler1 == [Base EXCEPT !.ps = <<P(World, "x", "USD", 1, 0)>>]
 Filler2 == [Base EXCEPT !.k = "acmeta", !.addr = "y", !.meta = MK]
 
 ReqOf(k, s, o) ==
-  LET op == [(IF o = "fail" THEN OpFail(k, s) ELSE OpOK(k, s)) EXCEPT !.now = Now, !.dry = (o = "dry")]
+  LET op == [(IF o = "fail" THEN OpFail(k, s) ELSE IF o = "replay" THEN Keyed(OpOK(k, s)) ELSE OpOK(k, s))
+                EXCEPT !.now = Now, !.dry = (o = "dry")]
       els == IF IsBulk(s) THEN <<[Filler1 EXCEPT !.now = Now], op, [Filler2 EXCEPT !.now = Now]>> ELSE <<op>>
   IN [k |-> IF IsBulk(s) THEN "bulk" ELSE "single", l |-> "l1", now |-> Now,
       atomic |-> s \in {"atomic", "atomic_init"}, parallel |-> FALSE, cof |-> s = "seqcof",
@@ -76,11 +84,11 @@ Cells == {cc \in [kind : Kinds, shape : Shapes, outcome : Outcomes] : Applicable
 PreStep(acc, op) ==
   LET r == Apply(acc.ls, acc.iks, op, MaxTxId(acc.ls) + 1, MaxLogId(acc.ls) + 1)
   IN [ls |-> r.ls, iks |-> IF r.ok /\ op.ik # "" THEN Put(acc.iks, op.ik, [ikin |-> op.ikin, id |-> r.id]) ELSE acc.iks]
-After(s) == FoldLeft(PreStep, [ls |-> EmptyLedger, iks |-> <<>>], PrefixOf(s))
+After(cc) == FoldLeft(PreStep, [ls |-> EmptyLedger, iks |-> <<>>], PrefixOf(cc.kind, cc.shape, cc.outcome))
 Dense(from, n) == [i \in 1..n |-> from + i]
 
 OutOf(cc) ==
-  LET st == After(cc.shape)
+  LET st == After(cc)
       rq == ReqOf(cc.kind, cc.shape, cc.outcome)
   IN BulkApply(st.ls, st.iks, rq.els, [atomic |-> rq.atomic, parallel |-> FALSE, cof |-> rq.cof], rq.fault,
                Dense(MaxTxId(st.ls), 4), Dense(MaxLogId(st.ls), 4))
@@ -101,8 +109,9 @@ Thm_OutcomeAsIntended ==
   LET r == OutOf(c).res[CellIdx(c)]
   IN /\ (c.outcome \in {"ok", "dry"} => r.ok)
      /\ (c.outcome \in {"fail", "commitfail"} => ~r.ok \/ OutOf(c).reqfail)
+     /\ (c.outcome = "replay" => r.ok /\ r.hit)
 Thm_AtomicFailurePublishesNothing ==
-  (c.shape \in {"atomic", "atomic_init"} /\ c.outcome # "ok") => Len(Events(OutOf(c), ElsOf(c))) = 0
+  (c.shape \in {"atomic", "atomic_init"} /\ c.outcome \in {"fail", "commitfail"}) => Len(Events(OutOf(c), ElsOf(c))) = 0
 Thm_OneEventPerDurableWrite ==
   Len(Events(OutOf(c), ElsOf(c))) = Cardinality({i \in DOMAIN OutOf(c).res : OutOf(c).res[i].cm})
 
@@ -110,7 +119,7 @@ EmitCase ==
   Emit =>
     PrintT(<<"CASE", ToJson(
        [cell |-> c.kind \o "/" \o c.shape \o "/" \o c.outcome,
-        prefix |-> PrefixOf(c.shape),
+        prefix |-> PrefixOf(c.kind, c.shape, c.outcome),
         req |-> ReqOf(c.kind, c.shape, c.outcome),
         events |-> Events(OutOf(c), ElsOf(c)),
         res |-> OutOf(c).res, httpok |-> OutOf(c).httpok, reqfail |-> OutOf(c).reqfail])>>)
